@@ -10,7 +10,7 @@ from vlib import arrio, core, twoconf  # noqa: E402
 
 PROP = 'C01'
 MODEL_MODULES = ['TenpyModel.Util.J', 'TenpyModel.Core.ArrCodec']
-PROPS_MODULES = ['TenpyModel.C01.PropsLabels', 'TenpyModel.C01.Props']
+PROPS_MODULES = ['TenpyModel.C01.PropsLabels', 'TenpyModel.C01.Props', 'TenpyModel.C01.PropsSort']
 LEVEL = 'proof'
 BUDGET = {'quick': 175, 'thorough': 1700}
 RULE = ('random *programs* (1-8 steps quick, 1-20 thorough) over the public tensor operations, typed by executing '
@@ -54,7 +54,7 @@ def gen_cases(ctx, tag, n, max_steps):
     g = generator()
     out = []
     for i in range(n):
-        rng = random.Random(f'{ctx.prop}:{ctx.seed}:{tag}:{i}')
+        rng = random.Random(f'C01:{ctx.seed}:{tag}:{i}')   # the same stream for C01 and C04
         try:
             c = g.gen_case(rng, max_steps)
         except Exception:
@@ -281,7 +281,7 @@ def judge_c01(res, cases, runs, models, configs):
                              slice_case(case, k))
                 r = rec.get('res', {})
                 if 'error' in r and st.get('sure') and rec.get('numpy_accepts') and not r['error'].startswith('Crash'):
-                    sig = f'c01.{opname(st)}.raises-on-valid-call.{r["error"]}' + refine(st)
+                    sig = f'c01.{opname(st)}.raises-on-valid-call.{r["error"]}' + refine(st, case, out)
                     rec.setdefault('oracle', []).append([sig, r.get('msg', '')])
                 for sig, detail in rec.get('oracle', []):
                     flagged_steps.add(k)
@@ -307,8 +307,19 @@ def judge_c01(res, cases, runs, models, configs):
                     break    # later steps depend on a value the oracle already rejected
 
 
-def refine(st):
+def input_dumps(st, case, out):
+    n0 = len(case['operands'])
+    for v in st.get('in', []):
+        d = out['operands'][v] if v < n0 else out['steps'][v - n0].get('res', {}).get('arr')
+        if d:
+            yield d
+
+
+def refine(st, case=None, out=None):
     """call-site detail that makes a signature specific"""
+    if st['op'] == 'squeeze' and case is not None:
+        if any(0 in b['shape'] for d in input_dumps(st, case, out) for b in d['blocks']):
+            return ':stored-block-of-size-0'
     if st['op'] == 'spec' and st.get('what', '').startswith('setitem'):
         for i in st.get('inds', []):
             if isinstance(i, dict) and 'ints' in i and i['ints'] != sorted(i['ints']):
@@ -358,20 +369,7 @@ def slice_case(case, k):
     return new
 
 
-def evaluate(ctx, cases, use_model=True, configs=('cy', 'py')):
-    res = core.Result()
-    if not cases:
-        return res
-    runs, models = execute(ctx, cases, configs, use_model)
-    judge_c01(res, cases, runs, models, configs)
-    statistics(res, cases, [runs[configs[0]]['results'][i] for i in range(len(cases))])
-    entered = {}
-    for cfg in configs:
-        cnt = {}
-        for out in runs[cfg]['results']:
-            for f in out.get('entered', []):
-                cnt[f] = cnt.get(f, 0) + 1
-        entered[cfg] = cnt
+def finish_stats(res, entered):
     res.extra['kernel_function_entries'] = entered
     tot = res.extra.get('legs_total', 0) or 1
     res.extra['fraction_legs_unsorted'] = round(res.extra.get('legs_unsorted', 0) / tot, 3)
@@ -380,13 +378,31 @@ def evaluate(ctx, cases, use_model=True, configs=('cy', 'py')):
     res.extra['fraction_missing_blocks'] = round(res.extra.get('blocks_missing', 0) / (res.extra.get('blocks_admissible', 0) or 1), 3)
     ok, err = res.hist.get('calls_ok', 0), res.hist.get('calls_error', 0)
     res.extra['fraction_valid_calls'] = round(ok / ((ok + err) or 1), 3)
+    res.extra['error_kinds_hit'] = sorted(k[6:] for k in res.hist if k.startswith('error='))
+
+
+def evaluate(ctx, cases, use_model=True, configs=('cy', 'py'), judge=None, res=None, entered=None):
+    """Run `cases` and judge them; accumulates into `res` (statistics included)."""
+    res = res if res is not None else core.Result()
+    entered = entered if entered is not None else {}
+    if not cases:
+        return res
+    runs, models = execute(ctx, cases, configs, use_model)
+    (judge or judge_c01)(res, cases, runs, models, configs)
+    statistics(res, cases, [runs[configs[0]]['results'][i] for i in range(len(cases))])
+    for cfg in configs:
+        cnt = entered.setdefault(cfg, {})
+        for out in runs[cfg]['results']:
+            for f in out.get('entered', []):
+                cnt[f] = cnt.get(f, 0) + 1
+    finish_stats(res, entered)
     return res
 
 
-def corpus_cases():
+def corpus_cases(prop=PROP):
     import json
     out = []
-    d = core.CORPUS_DIR / PROP
+    d = core.CORPUS_DIR / prop
     if d.exists():
         for f in sorted(d.glob('*.json')):
             c = json.loads(f.read_text())
@@ -394,15 +410,36 @@ def corpus_cases():
     return out
 
 
+def run_stream(ctx, judge=None, prop=PROP, tag='main', use_model=True, frac=0.62):
+    """Corpus first, then batches of generated programs until the case budget or ~`frac` of the time budget is
+    used (the batch sequence is a deterministic function of the seed: `(seed, tag, index)` replays)."""
+    res, entered = core.Result(), {}
+    n_max = QUICK_CASES if ctx.quick else THOROUGH_CASES
+    batch = 275 if ctx.quick else 1500
+    max_steps = 8 if ctx.quick else 20
+    cases = corpus_cases(prop)
+    done, k = 0, 0
+    import time
+    while True:
+        t0 = time.time()
+        new = gen_cases(ctx, f'{tag}{k}', min(batch, n_max - done), max_steps)
+        evaluate(ctx, cases + new, use_model=use_model, judge=judge, res=res, entered=entered)
+        done += len(new)
+        k += 1
+        cases = []
+        dt = time.time() - t0
+        if done >= n_max or ctx.elapsed() + 1.15 * dt > frac * ctx.budget_s:
+            break
+    res.extra['batches'] = k
+    return res
+
+
 def run(ctx):
-    n = QUICK_CASES if ctx.quick else THOROUGH_CASES
-    cases = corpus_cases() + gen_cases(ctx, 'main', n, 8 if ctx.quick else 20)
-    return evaluate(ctx, cases)
+    return run_stream(ctx)
 
 
 def search(ctx, reasons):
-    cases = corpus_cases() + gen_cases(ctx, 'search', 600 if ctx.quick else 4000, 8)
-    return evaluate(ctx, cases, use_model=False)
+    return run_stream(ctx, tag='search', use_model=False, frac=0.95)
 
 
 def replay(ctx, payload):
